@@ -44,6 +44,33 @@ pub fn judge(ctx: &mut Ctx, m: &MSym, perms: &[Vec<usize>], k: usize) -> Option<
         }
         Err(p) => ctx.violation(&format!("panic@{}", p.short_loc()), "derived::canonical", json!({"symbol": c.to_text()}), p.to_json(), "no panic"),
     }
+    // equality of canonical forms under the type's own Eq must coincide with isomorphism:
+    // compare with a sibling symbol (same set, one branching number changed) and with a renumbered copy
+    {
+        let mut sib = m.clone();
+        let orbits = gen::adjacent_orbits(m);
+        let (oi, _, members, _) = &orbits[k % orbits.len()];
+        for &e in members {
+            sib.v[*oi][e] = if m.v[*oi][e] == 1 { 2 } else { m.v[*oi][e] - 1 };
+        }
+        let ren = m.renumbered(&gen::some_perms1(m.n, 0, &mut Rng::new(k as u64))[0]);
+        for (what, other) in [("sibling with one branching number changed", &sib), ("renumbered copy", &ren)] {
+            let r = observe(|| canonical(&to_partial_dsym(m)) == canonical(&to_partial_dsym(other)));
+            if let Ok(lib_eq) = r {
+                let iso = m.iso(other);
+                if lib_eq != iso {
+                    ctx.violation(
+                        "canonical-forms-equal-iff-isomorphic",
+                        "derived::canonical + PartialEq for PartialDSym",
+                        json!({"symbol": m.to_text(), "other": other.to_text(), "relation": what}),
+                        json!({"canonical_forms_compare_equal": lib_eq, "isomorphic": iso}),
+                        "two connected symbols have equal canonical forms if and only if they are isomorphic",
+                    );
+                }
+                ctx.count(if iso { "eq_checked_on_isomorphic_pair" } else { "eq_checked_on_non_isomorphic_pair" });
+            }
+        }
+    }
     // the code itself is a relabelling-invariant too
     let code = observe(|| minimal_traversal_code(&to_partial_dsym(m)).get_code()).ok();
     // renumberings
@@ -203,6 +230,8 @@ pub fn run(cfg: &Cfg) -> Report {
     report.assume("domain: connected complete symbols");
     report.require_counter("renumberings_not_automorphisms", 10_000);
     report.require_counter("canonical_classes", 100);
+    report.require_counter("eq_checked_on_non_isomorphic_pair", 100);
+    report.require_counter("eq_checked_on_isomorphic_pair", 100);
     report.require_counter("large_cover_symbols", 5);
     report
 }
